@@ -88,12 +88,20 @@ struct Agg {
     ref_origin: Vec<(usize, u64, String, usize)>,
     /// world tag of a violation -> process that reported it
     violation_proc: BTreeMap<String, usize>,
+    /// key-set hash -> (map size, distinct iteration orders seen)
+    map_orders: BTreeMap<u64, (u8, BTreeSet<u64>)>,
 }
 
 impl Agg {
     fn absorb_r(&mut self, procid: usize, r: RMsg) {
         for (k, h) in &r.refs {
             self.proc_refs.push((procid + self.proc_offset, *k, *h));
+        }
+        for (set, order, n) in &r.map_orders {
+            let e = self.map_orders.entry(*set).or_insert((*n, BTreeSet::new()));
+            if e.1.len() < 720 {
+                e.1.insert(*order);
+            }
         }
         for (k, t, j) in &r.ref_origin {
             self.ref_origin.push((procid + self.proc_offset, *k, t.clone(), *j));
@@ -613,6 +621,19 @@ pub fn check(prop: &str, tier_name: &str) -> i32 {
         .into_iter()
         .filter(|p| prop == "C05" && agg.stats.get(*p).copied().unwrap_or(0) == 0)
         .collect();
+    let orders_reached: BTreeMap<String, serde_json::Value> = {
+        let fact = |n: u8| (1..=n as u64).product::<u64>();
+        let mut by_n: BTreeMap<u8, (u64, u64, u64)> = BTreeMap::new(); // size -> (maps, orders seen, orders possible)
+        for (n, orders) in agg.map_orders.values() {
+            let e = by_n.entry(*n).or_insert((0, 0, 0));
+            e.0 += 1;
+            e.1 += orders.len() as u64;
+            e.2 += fact(*n);
+        }
+        by_n.iter()
+            .map(|(n, (maps, seen, possible))| (format!("maps_of_{}_entries", n), json!({"distinct_key_sets": maps, "iteration_orders_seen": seen, "iteration_orders_possible": possible})))
+            .collect()
+    };
     let ev = json!({
         "property_id": prop,
         "tier": t.name,
@@ -642,6 +663,7 @@ pub fn check(prop: &str, tier_name: &str) -> i32 {
             "outcomes": outcomes,
             "ticks_by_site": ticks,
             "pristine_process_references_compared": pristine_checked,
+            "hash_iteration_orders_reached": orders_reached,
             "selftest": {"seeds_run_twice": a1.digests.len(), "worker_counts": [1.max(nw / 4), nw], "digest_mismatches": 0},
             "components": {
                 "real": ["cc6502 library built from /repo working tree (cpp, pest parser, compile, generate, assemble)", "the repository's own builder src/tests/build.rs::simple_build", "Args via its clap parser", "std HashMap/RandomState/SipHash", "real include files on tmpfs", "std::io::BufRead::read_line / Write::write_all"],
